@@ -12,6 +12,9 @@ use std::fmt::{Debug, Formatter};
 use std::hash::Hash;
 use std::io::{BufRead, Write, sink};
 
+#[cfg(hclrs_verif)]
+pub mod verif_hooks;
+
 struct Graph<T> {
     edges: HashMap<T, HashSet<T>>,
     edges_inverted: HashMap<T, HashSet<T>>,
